@@ -60,8 +60,13 @@ def assign_registers(data: CodeData, code: list[IC10Instruction]):
         for node in func.sym_data.nodes_reading:
             scope = get_scope_name(node)
             scopes = [scope] if scope else []
-            if isinstance(node.scope(), nodes.FunctionDef):
-                scopes.append(node.scope().name)
+            caller = node.scope()
+            enclosing = []
+            while isinstance(caller, nodes.FunctionDef):
+                # a call made inside a nested function belongs to the scope '<outer>.<name>'
+                enclosing.insert(0, caller.name)
+                caller = caller.parent.scope()
+            scopes.extend(enclosing)
 
             scope = ".".join(scopes)
             called_from[fname].add(scope)
